@@ -364,6 +364,29 @@ impl Machine {
                     _ => Expect::Ok,
                 }
             }
+            "u.rand" | "i.rand" => {
+                if !cfg!(feature = "opt") {
+                    return Expect::Skip;
+                }
+                let f = s.int("f");
+                let ord = if op == "u.rand" {
+                    denote_u(&self.u[a % NU]).cmp(&denote_u(&self.u[b % NU]))
+                } else {
+                    denote_i(&self.i[a % NI]).cmp(&denote_i(&self.i[b % NI]))
+                };
+                let fails = match f {
+                    0 => {
+                        if op == "u.rand" { zu(a % NU) } else { zi(a % NI) }
+                    }
+                    3 | 6 => ord == Ordering::Greater,
+                    _ => ord != Ordering::Less,
+                };
+                if fails {
+                    Expect::Panic("empty-or-inverted-range")
+                } else {
+                    Expect::Ok
+                }
+            }
             "u.to_str" | "i.to_str" | "u.parse" | "i.parse" => {
                 if !(2..=36).contains(&radix) {
                     Expect::Panic("radix-out-of-range")
@@ -570,6 +593,10 @@ impl Machine {
                     }
                 }
                 // ---- arrivals from generators / deserialisers (seams S1-S3) ------------------------
+                "u.rand" => match rand_u(f, &self.u[a], &self.u[b], &s.list32("v")) {
+                    Some(x) => self.put_u(d, x, obs),
+                    None => obs.skipped = true,
+                },
                 "u.arrive" => {
                     let x: Option<BigUint> = arrive_u(f, k, s, obs);
                     match x {
@@ -1042,6 +1069,10 @@ impl Machine {
                     };
                     self.put_i(d, x, obs);
                 }
+                "i.rand" => match rand_i(f, &self.i[a], &self.i[b], &s.list32("v")) {
+                    Some(x) => self.put_i(d, x, obs),
+                    None => obs.skipped = true,
+                },
                 "i.arrive" => {
                     let x: Option<BigInt> = arrive_i(f, k, s, obs);
                     match x {
@@ -1594,5 +1625,51 @@ fn arrive_u(_f: i128, _k: i128, _s: &Step, obs: &mut Obs) -> Option<BigUint> {
 #[cfg(not(feature = "opt"))]
 fn arrive_i(_f: i128, _k: i128, _s: &Step, obs: &mut Obs) -> Option<BigInt> {
     obs.skipped = true;
+    None
+}
+
+// Bounded random sampling with register operands (the "empty or inverted random range" failure class).
+#[cfg(feature = "opt")]
+fn rand_u(f: i128, a: &BigUint, b: &BigUint, words: &[u32]) -> Option<BigUint> {
+    use num_bigint::{RandBigInt, UniformBigUint};
+    use rand::distributions::uniform::UniformSampler;
+    use rand::distributions::{Distribution, Uniform};
+    use rand::Rng;
+    let mut r = crate::seams::SimRng::from_words(words);
+    Some(match f {
+        0 => r.gen_biguint_below(a),
+        1 => r.gen_biguint_range(a, b),
+        2 => Uniform::new(a, b).sample(&mut r),
+        3 => Uniform::new_inclusive(a, b).sample(&mut r),
+        4 => UniformBigUint::sample_single(a, b, &mut r),
+        5 => r.gen_range(a.clone()..b.clone()),
+        6 => r.gen_range(a.clone()..=b.clone()),
+        _ => UniformBigUint::new(a, b).sample(&mut r),
+    })
+}
+#[cfg(feature = "opt")]
+fn rand_i(f: i128, a: &BigInt, b: &BigInt, words: &[u32]) -> Option<BigInt> {
+    use num_bigint::{RandBigInt, UniformBigInt};
+    use rand::distributions::uniform::UniformSampler;
+    use rand::distributions::{Distribution, Uniform};
+    use rand::Rng;
+    let mut r = crate::seams::SimRng::from_words(words);
+    Some(match f {
+        0 => BigInt::from(r.gen_biguint_below(a.magnitude())),
+        1 => r.gen_bigint_range(a, b),
+        2 => Uniform::new(a, b).sample(&mut r),
+        3 => Uniform::new_inclusive(a, b).sample(&mut r),
+        4 => UniformBigInt::sample_single(a, b, &mut r),
+        5 => r.gen_range(a.clone()..b.clone()),
+        6 => r.gen_range(a.clone()..=b.clone()),
+        _ => UniformBigInt::new(a, b).sample(&mut r),
+    })
+}
+#[cfg(not(feature = "opt"))]
+fn rand_u(_f: i128, _a: &BigUint, _b: &BigUint, _w: &[u32]) -> Option<BigUint> {
+    None
+}
+#[cfg(not(feature = "opt"))]
+fn rand_i(_f: i128, _a: &BigInt, _b: &BigInt, _w: &[u32]) -> Option<BigInt> {
     None
 }
